@@ -143,16 +143,20 @@ def is_int_ty(ty):
 
 # ----------------------------------------------------------------------------- frames / state
 class Frame:
-    __slots__ = ('fn', 'body', 'L', 'bb', 'si', 'dest', 'target', 'gsubst', 'is_promoted', 'on_return')
+    __slots__ = ('fn', 'body', 'L', 'bb', 'si', 'dest', 'target', 'gsubst', 'is_promoted', 'on_return', 'loops', 'arrived')
 
     def __init__(self, fn, body, L, dest=None, target=None, gsubst=None):
         self.fn, self.body, self.L, self.bb, self.si = fn, body, L, 0, 0
         self.dest, self.target, self.gsubst = dest, target, gsubst or {}
         self.on_return = None
+        self.loops = {}         # loop head bb -> record (visits, snapshot / generalised snapshot)
+        self.arrived = False
 
     def clone(self):
         f = Frame(self.fn, self.body, dict(self.L), self.dest, self.target, self.gsubst)
         f.bb, f.si, f.on_return = self.bb, self.si, self.on_return
+        f.loops = dict(self.loops)
+        f.arrived = self.arrived
         return f
 
 
@@ -178,9 +182,11 @@ class State:
         self.cptr = 0
         self.journal = None
         self.steps = 0
+        self.decomp_depth = 1   # depth of the form decomposition p = k*f + rest in range_of
 
     def clone(self):
         s = State(self.atoms)
+        s.decomp_depth = self.decomp_depth
         s.frames = [f.clone() for f in self.frames]
         s.pframes = {k: f.clone() for k, f in self.pframes.items()}
         s.bounds = dict(self.bounds)
@@ -362,18 +368,21 @@ class State:
             lo, hi = (None if lo is None else G * lo + c), (None if hi is None else G * hi + c)
         else:
             lo, hi = (None if hi is None else G * hi + c), (None if lo is None else G * lo + c)
-        if depth < 1 and self.forms:
+        if depth < self.decomp_depth and self.forms:
             # one-step decomposition p = k*f + rest over the recorded forms f (tightens sums of a bounded form and bounded atoms)
             for fkey, (flo, fhi, _ex) in list(self.forms.items()):
                 if len(fkey) < 2:
                     continue
-                m0, v0 = fkey[0]
-                pv = p.get(m0)
-                if pv is None or pv % v0 != 0:
+                k = None
+                for m0, v0 in fkey:
+                    pv = p.get(m0)
+                    if pv is not None and pv % v0 == 0:
+                        k = pv // v0
+                        break
+                if k is None:
                     continue
-                k = pv // v0
                 rest = padd(p, dict(fkey), -k)
-                if len(rest) >= len(p) and len(rest) > 2:
+                if len(rest) > len(p) and len(rest) > 2:
                     continue
                 rlo, rhi = self.range_of(rest, depth + 1)
                 a, b = (flo, fhi) if k > 0 else (fhi, flo)
@@ -664,6 +673,7 @@ class Opts:
         self.profile = profile
         self.track_sites = track_sites
         self.no_inline = set(no_inline)
+        self.unroll_loops = True     # False: generalise (widen) at the 2nd arrival at a loop head instead of unrolling
         self.precision = 'sym'      # Formatter::precision(): 'sym' (fork None / unknown), None, or a concrete usize
 
 
@@ -746,6 +756,10 @@ class Interp:
             if st.steps > self.opts.max_steps:
                 raise Stop('step limit')
             fr = st.frames[-1]
+            if fr.arrived:
+                fr.arrived = False
+                if fr.fn is not None and fr.body is fr.fn and fr.bb in loop_heads(fr.fn):
+                    self.loop_head(st, fr)
             blk = fr.body['blocks'][fr.bb]
             stmts = blk['stmts']
             if fr.si < len(stmts):
@@ -781,6 +795,7 @@ class Interp:
     def goto(self, fr, bb):
         fr.bb = bb
         fr.si = 0
+        fr.arrived = True
 
     def terminator(self, st, fr, t, blk):
         if t == 'return':
@@ -860,6 +875,174 @@ class Interp:
             return self.call(st, fr, t, blk)
         raise Stop('terminator %s' % (str(t)[:80],))
 
+    # ------------------------------------------------------------ loops: generalisation (widening) at loop heads
+    MAX_UNROLL = 24          # loops whose exit is decided by the abstract state simply unroll (scale-driven loops)
+    MAX_WIDEN = 6
+
+    def loop_head(self, st, fr):
+        rec = fr.loops.get(fr.bb)
+        if rec is None:
+            fr.loops[fr.bb] = {'n': 1, 'snap': self.snapshot(st), 'gen': None, 'widen': 0}
+            return
+        rec = dict(rec)
+        rec['n'] += 1
+        fr.loops[fr.bb] = rec
+        if rec['gen'] is None:
+            if rec['n'] <= self.unroll_budget(st, fr, rec):
+                return
+            # generalise the state of the first visit and the current one
+            g = self.generalise(st, rec['snap'], None)
+            rec['gen'] = g
+            rec['widen'] = 1
+            return
+        # already generalised: is the current state covered?
+        if self.subsumed(st, rec['gen']):
+            raise Infeasible()       # nothing new: this path is covered by the generalised iteration
+        rec['widen'] += 1
+        if rec['widen'] > self.MAX_WIDEN:
+            raise Stop('loop at %s bb%d does not stabilise' % (fr.fn['id'], fr.bb))
+        rec['gen'] = self.generalise(st, rec['gen']['snap'], rec['gen'])
+
+    def unroll_budget(self, st, fr, rec):
+        """loops are unrolled while every arrival is a *decided* continuation; a loop whose state keeps changing symbolically is generalised at the 2nd arrival"""
+        return self.MAX_UNROLL if self.opts.unroll_loops else 1
+
+    def snapshot(self, st):
+        return {'frames': [(f.fn['id'] if f.fn else None, dict(f.L)) for f in st.frames],
+                'pframes': {k: dict(f.L) for k, f in st.pframes.items()}}
+
+    def generalise(self, st, snap, prev):
+        """replace every value that differs between `snap` and the current state by a fresh atom with widened bounds;
+        keep the candidate relations (<=, >=) to unchanged values that hold for both. Returns the record of the generalised state."""
+        if len(snap['frames']) != len(st.frames) or any(a[0] != (f.fn['id'] if f.fn else None) for a, f in zip(snap['frames'], st.frames)):
+            raise Stop('loop head reached with a different call stack')
+        stable = []         # polys of Int values that did not change (candidates for relations)
+        changed = []        # (setter, old Int, new Int)
+        ctx = {'stable': stable, 'changed': changed}
+        for (fid, oldL), f in zip(snap['frames'], st.frames):
+            for k in list(f.L.keys()):
+                if k in oldL:
+                    f.L[k] = self.gen_value(st, oldL[k], f.L[k], ctx)
+        for key, oldL in snap['pframes'].items():
+            f = st.pframes.get(key)
+            if f is None:
+                continue
+            for k in list(f.L.keys()):
+                if k in oldL:
+                    f.L[k] = self.gen_value(st, oldL[k], f.L[k], ctx)
+        invs = []
+        for (a, old, new) in changed:
+            ap = patom(a)
+            seen = set()
+            entry = []
+            try:
+                if pis_const(st.norm(old.p)) is None and not (patoms(st.norm(old.p)) & set(x for x, _, _ in changed)):
+                    entry = [st.norm(old.p)]        # the value at loop entry itself (monotonicity v <= v_entry / v >= v_entry)
+            except Infeasible:
+                entry = []
+            for w in entry + stable:
+                fw = pfreeze(w)
+                if fw in seen:
+                    continue
+                seen.add(fw)
+                for rel in (NONPOS, NONNEG):
+                    try:
+                        if st.sign(padd(old.p, w, -1)) <= rel and st.sign(padd(new.p, w, -1)) <= rel:
+                            st.assume(padd(ap, w, -1), rel)
+                            invs.append((a, w, rel))
+                    except Infeasible:
+                        pass
+        return {'snap': self.snapshot(st), 'atoms': set(a for a, _, _ in changed), 'invs': invs,
+                'bounds': {a: st.bounds.get(a) for a, _, _ in changed}}
+
+    def gen_value(self, st, old, new, ctx):
+        if isinstance(old, Int) and isinstance(new, Int):
+            try:
+                same = pis_const(st.norm(padd(old.p, new.p, -1))) == 0
+            except Infeasible:
+                same = False
+            if same:
+                if pis_const(st.norm(new.p)) is None:
+                    ctx['stable'].append(st.norm(new.p))
+                return new
+            olo, ohi = st.itv(old)
+            nlo, nhi = st.itv(new)
+            lo = olo if nlo >= olo else widen_down(nlo, new.ty)
+            hi = ohi if nhi <= ohi else widen_up(nhi, new.ty)
+            a = st.atoms.fresh('loop')
+            st.bounds[a] = (min(lo, nlo), max(hi, nhi))
+            ctx['changed'].append((a, old, new))
+            return Int(new.ty, min(lo, nlo), max(hi, nhi), patom(a), None)
+        if isinstance(old, SliceVal) and isinstance(new, SliceVal):
+            return SliceVal(self.gen_value(st, old.len, new.len, ctx), new.tag)
+        if isinstance(old, Agg) and isinstance(new, Agg) and old.kind == new.kind and old.variant == new.variant and len(old.fields) == len(new.fields):
+            return Agg(new.kind, new.variant, [self.gen_value(st, a, b, ctx) for a, b in zip(old.fields, new.fields)])
+        if isinstance(old, Ref) and isinstance(new, Ref) and (old.frame, old.local, old.proj) == (new.frame, new.local, new.proj):
+            return new
+        if isinstance(old, Opaque) and isinstance(new, Opaque):
+            return new
+        if isinstance(old, FnVal) and isinstance(new, FnVal):
+            return new
+        if old is new:
+            return new
+        return HAVOC
+
+    def subsumed(self, st, gen):
+        """is the current state an instance of the generalised state `gen`?"""
+        snap = gen['snap']
+        if len(snap['frames']) != len(st.frames):
+            return False
+        binding = {}
+        for (fid, gL), f in zip(snap['frames'], st.frames):
+            for k, gv in gL.items():
+                if k not in f.L:
+                    continue
+                if not self.sub_value(st, gv, f.L[k], gen, binding):
+                    return False
+        for key, gL in snap['pframes'].items():
+            f = st.pframes.get(key)
+            if f is None:
+                continue
+            for k, gv in gL.items():
+                if k in f.L and not self.sub_value(st, gv, f.L[k], gen, binding):
+                    return False
+        for (a, w, rel) in gen['invs']:
+            cur = binding.get(a)
+            if cur is None:
+                continue
+            try:
+                if not st.sign(padd(cur, w, -1)) <= rel:
+                    return False
+            except Infeasible:
+                return False
+        return True
+
+    def sub_value(self, st, gv, cv, gen, binding):
+        if gv is HAVOC:
+            return True
+        if isinstance(gv, Int) and isinstance(cv, Int):
+            ls = plinear_single(gv.p)
+            if ls is not None and ls[0] in gen['atoms'] and ls[1] == 1 and ls[2] == 0:
+                b = gen['bounds'].get(ls[0])
+                lo, hi = st.itv(cv)
+                if b is not None and (lo < b[0] or hi > b[1]):
+                    return False
+                binding[ls[0]] = cv.p
+                return True
+            try:
+                return pis_const(st.norm(padd(gv.p, cv.p, -1))) == 0
+            except Infeasible:
+                return False
+        if isinstance(gv, SliceVal) and isinstance(cv, SliceVal):
+            return self.sub_value(st, gv.len, cv.len, gen, binding)
+        if isinstance(gv, Agg) and isinstance(cv, Agg):
+            if gv.kind != cv.kind or gv.variant != cv.variant or len(gv.fields) != len(cv.fields):
+                return False
+            return all(self.sub_value(st, a, b, gen, binding) for a, b in zip(gv.fields, cv.fields))
+        if isinstance(gv, Ref) and isinstance(cv, Ref):
+            return (gv.frame, gv.local, gv.proj) == (cv.frame, cv.local, cv.proj)
+        return type(gv) is type(cv)
+
     # ------------------------------------------------------------ places
     def place_ty_hint(self, fr, pl):
         if not pl['proj']:
@@ -903,6 +1086,10 @@ class Interp:
                     raise Stop('index %r' % (idx,))
                 lo, hi = st.itv(idx)
                 if lo != hi:
+                    if isinstance(v, Agg) and v.kind == 'array' and 0 <= lo and hi < len(v.fields) and all(isinstance(e_, Int) for e_ in v.fields[lo:hi + 1]):
+                        els = v.fields[lo:hi + 1]
+                        v = st.fresh(els[0].ty, min(e_.lo for e_ in els), max(e_.hi for e_ in els), 'elem')
+                        continue
                     raise Stop('symbolic index [%s,%s]' % (lo, hi))
                 if isinstance(v, Agg) and lo < len(v.fields):
                     v = v.fields[lo]
@@ -1033,8 +1220,8 @@ class Interp:
                 return K(1 if self.opts.profile == 'dev' else 0, 'bool')
             raise Stop('operand %r' % (o,))
         v = self.load_place(st, fr, pl)
-        if v is UNINIT:
-            raise Stop('read of uninitialised %r in %s' % (pl, fr.fn['id'] if fr.fn else '?'))
+        if v is UNINIT or v is HAVOC:
+            raise Stop('read of %r %r in %s' % (v, pl, fr.fn['id'] if fr.fn else '?'))
         return v
 
     # ------------------------------------------------------------ rvalues
@@ -1590,3 +1777,71 @@ class EnumSym:
 
     def discr_int(self, st, ty):
         return Int(ty if ty in INT_RANGES else 'isize', self.idx.lo, self.idx.hi, self.idx.p)
+
+
+class _Havoc:
+    def __repr__(self):
+        return 'HAVOC'
+
+
+HAVOC = _Havoc()
+_LOOP_HEADS = {}
+THRESHOLDS = set()
+
+
+def loop_heads(fn):
+    """targets of back edges in the (non-cleanup) control-flow graph of a MIR body"""
+    r = _LOOP_HEADS.get(fn['id'])
+    if r is not None:
+        return r
+    from .mir import successors
+    heads = set()
+    color = {}
+    stack = [(0, iter(successors(fn['blocks'][0]['term'])))]
+    color[0] = 1
+    while stack:
+        b, it = stack[-1]
+        nxt = None
+        for s in it:
+            if s < 0 or s >= len(fn['blocks']):
+                continue
+            c = color.get(s, 0)
+            if c == 1:
+                heads.add(s)
+            elif c == 0:
+                nxt = s
+                break
+        if nxt is None:
+            color[b] = 2
+            stack.pop()
+        else:
+            color[nxt] = 1
+            stack.append((nxt, iter(successors(fn['blocks'][nxt]['term']))))
+    _LOOP_HEADS[fn['id']] = heads
+    return heads
+
+
+def _thresholds(ty):
+    lo, hi = INT_RANGES[ty]
+    t = set(x for x in THRESHOLDS if lo <= x <= hi and abs(x) >= 4096)      # sparse: avoid laddering through small constants
+    t.update((lo, hi, 0))
+    return sorted(x for x in t if lo <= x <= hi)
+
+
+def widen_up(v, ty):
+    for x in _thresholds(ty):
+        if x >= v:
+            return x
+    return INT_RANGES[ty][1]
+
+
+def widen_down(v, ty):
+    for x in reversed(_thresholds(ty)):
+        if x <= v:
+            return x
+    return INT_RANGES[ty][0]
+
+
+def add_thresholds(consts):
+    for c in consts:
+        THRESHOLDS.update((c, c - 1, c + 1, 10 * c, 10 * c + 9, 10 * (c - 1) + 9))
